@@ -13,7 +13,7 @@ Pairs == {p \in Evs \X {0, 1, 2, 3, 5} : Guard(p[1], p[2])}
 Apply(ev, d) ==
   LET t == now + d
       e == [e |-> ev.e, g |-> ev.g, t |-> t]
-      m2 == Step(m, e, P, KeepAlive, MaxRetries, TRUE) IN
+      m2 == Step(m, e, P, KeepAlive, MaxRetries, TRUE, TRUE) IN
   /\ Guard(ev, d)
   /\ m' = m2 /\ now' = t /\ hist' = Append(hist, e)
   /\ lastRecv' = IF ev.e \in {"recv", "pong"} THEN t ELSE lastRecv
